@@ -18,6 +18,12 @@ CHECKS = {
  "C10": dict(level="fault_enumeration", ref="5 C10", tech="exhaustive single-fault enumeration over every upstream request and every driver-level SQL operation of every block, differential against the fault-free run",
    text="For every block of the coverage chains, every upstream request (by method/key/occurrence) and every SQL operation is failed once (quick: one error kind per class and two occurrences per call site; thorough: all kinds, all occurrences, and all pairs on small blocks). The real retry loop must bring the same process (or a restarted one after a death) to exactly the fault-free ledger at every committed height and to the fault-free rolling-average cache.",
    note="Runs start from the uninterrupted run's state at h-1 (database copy + cache), validated against the uninterrupted run by a fault-free probe at every height. Known open call sites are in known_findings.json."),
+ "C09": dict(level="model_checking", ref="5 C09", tech="explicit-state breadth-first search over block/restart events on the real node with state cloning (database file + cache)",
+   text="BFS over all event sequences {block G1, block G2, block U, restart} up to depth 6 (thorough 8; AveragePeriod 4, thorough also 6) with PIP-10 active and a conversion executing in every graded block; states (chain prefix, ledger hash, cache) are deduplicated; invariant: one ledger per chain prefix whatever the restart placement.",
+   note="State = database + the three exported cache fields (validated by C10's checkpoint probe). Bounded depth and two averaging periods; the known window defect is listed in known_findings.json."),
+ "C19": dict(level="model_checking", ref="5 C19", tech="explicit-state breadth-first search over upgrade/downgrade session histories with real block commits, compared with a list model at every start-up",
+   text="Per fork placement (all placements of two forks over heights 1..6; thorough adds three forks and height 7) a BFS over sessions (build version in {legacy,0,1,2,3} x blocks in {0,1,2}) of up to 3 (4) sessions; every start-up is the real node.NewPegnetd on a database produced by real DBlockSync commits and is compared with the model verdict.",
+   note="A build's fork table is modelled as the forks whose minimum version it satisfies; legacy builds leave no version rows."),
 }
 
 NOT_YET = {}
